@@ -184,6 +184,15 @@ def pow2(x):
     return m == 0.5
 
 
+def box_eval(lo, hi):
+    def ev(z):
+        v = flat(z)
+        l = -np.inf if lo is None else (lo if np.isscalar(lo) else np.asarray(lo, dtype=float))
+        u = np.inf if hi is None else (hi if np.isscalar(hi) else np.asarray(hi, dtype=float))
+        return 0.0 if (np.all(v >= l) and np.all(v <= u)) else float('inf')
+    return ev
+
+
 def build(spec):
     """spec -> Case.  spec[0] is the kind; leaves carry the space key at spec[1]."""
     import odl
@@ -214,6 +223,7 @@ def build(spec):
         n = fsize(sp)
         args = spec[2:]
         tree, ind, vec, exact = None, False, False, None
+        own_eval = None
         lab = kind
         if kind == 'L1Norm':
             f = S.L1Norm(sp)
@@ -256,10 +266,12 @@ def build(spec):
                                hi if (hi is None or np.isscalar(hi)) else unflat(sp, hi))
             tree, ind = ['box', _bvec(n, lo), _bvec(n, hi)], True
             exact = lambda sg: True  # noqa
+            own_eval = box_eval(lo, hi)
         elif kind == 'IndicatorNonnegativity':
             f = S.IndicatorNonnegativity(sp)
             tree, ind = ['box', _bvec(n, 0), '~'], True
             exact = lambda sg: True  # noqa
+            own_eval = box_eval(0, None)
         elif kind == 'IndicatorZero':
             f = S.IndicatorZero(sp, args[0])
             tree, ind = ['izero'], True
@@ -305,7 +317,18 @@ def build(spec):
             f = S.IndicatorNuclearNormUnitBall(sp, np.inf, np.inf if q == 'inf' else q)
             lab = 'IndicatorNuclearNormUnitBall(inf,{})'.format(q)
             ind = True
-        return Case(lab, skey, lambda sg: f.proximal(sg), fn(f), tree, indicator=ind,
+        if own_eval is not None:
+            # IndicatorBox._call is DEFINED through its own proximal (x.dist(prox(x)) > 0), so it
+            # cannot judge that proximal: the oracle evaluates the box from the constructor
+            # arguments (lower <= z <= upper entry-wise).
+            real_f = f
+
+            def feval_box(z, _own=own_eval, _f=real_f):
+                return _own(z)
+            case_feval = feval_box
+        else:
+            case_feval = fn(f)
+        return Case(lab, skey, lambda sg: f.proximal(sg), case_feval, tree, indicator=ind,
                     vec_sigma=vec, exact=exact, leaves=(lab,), fobj=f,
                     restricted=kind in ('KullbackLeibler', 'KullbackLeiblerConvexConj',
                                         'KullbackLeiblerCrossEntropy'))
@@ -425,6 +448,16 @@ def build(spec):
         tree = None if sub.tree is None else ['conj'] + sub.tree
         return Case('dconj[' + sub.label + ']', sub.skey, lambda sg: f.proximal(sg), None, tree,
                     moreau=sub, leaves=sub.leaves + ('dconj',), fobj=f)
+    if kind == 'comp':
+        # proximal_composition(f.proximal, L, mu) for a matrix L with L^T L = mu I on an
+        # unweighted rn (no functional binds it: the factory is called directly)
+        mat, mu, sub = np.asarray(spec[1], dtype=float), spec[2], build(spec[3])
+        L = odl.MatrixOperator(mat, domain=sub.space, range=sub.space)
+        f = sub.fobj * L
+        factory = PO.proximal_composition(sub.fobj.proximal, L, mu)
+        return Case('proximal_composition[' + sub.label + ']', sub.skey, lambda sg: factory(sg),
+                    fn(f), None, indicator=sub.indicator, restricted=sub.restricted,
+                    leaves=sub.leaves + ('proximal_composition',), fobj=f)
     if kind == 'sep':
         subs = [build(s) for s in spec[1]]
         f = S.SeparableSum(*[c.fobj for c in subs])
@@ -488,6 +521,7 @@ def leaf_specs(rng, quick):
         n = fsize(zoo()[k])
         ex = k in FLAT_EXACT
         v = (lambda m: dvec(rng, m)) if ex else (lambda m: gvec(rng, m))
+        blo, bhi = sorted_pair(rng, n)
         out += [['L1Norm', k], ['L2Norm', k], ['L2NormSquared', k],
                 ['LpNorm', k, 1], ['LpNorm', k, 2], ['LpNorm', k, 'inf'],
                 ['IndicatorLpUnitBall', k, 1], ['IndicatorLpUnitBall', k, 2],
@@ -495,7 +529,7 @@ def leaf_specs(rng, quick):
                 ['ConstantFunctional', k, dy(rng)], ['ZeroFunctional', k],
                 ['IndicatorBox', k, -0.5, 1.25], ['IndicatorBox', k, None, 0.75],
                 ['IndicatorBox', k, [-1.0] * n, None],
-                ['IndicatorBox', k, sorted_pair(rng, n)[0], sorted_pair(rng, n)[1]],
+                ['IndicatorBox', k, blo, bhi],
                 ['IndicatorNonnegativity', k], ['IndicatorZero', k, 0], ['IndicatorZero', k, 2],
                 ['KullbackLeibler', k, None], ['KullbackLeibler', k, pvec(rng, n, ex)],
                 ['KullbackLeiblerConvexConj', k, None],
@@ -514,6 +548,16 @@ def leaf_specs(rng, quick):
             out += [[fac, k, lam, None], [fac, k, lam, v(n)], [fac, k, 1.0, v(n)]]
         for fac in ('proximal_convex_conj_kl', 'proximal_convex_conj_kl_cross_entropy'):
             out += [[fac, k, lam, None], [fac, k, lam, pvec(rng, n, ex)]]
+    # proximal_composition with scaled orthogonal matrices on unweighted rn
+    mats = {'rn2': [([[0.0, 2.0], [-2.0, 0.0]], 4.0), ([[0.6, 0.8], [-0.8, 0.6]], 1.0)],
+            'rn3': [([[0.0, 0.5, 0.0], [0.0, 0.0, 0.5], [0.5, 0.0, 0.0]], 0.25),
+                    ([[-1.0, 2.0, 2.0], [2.0, -1.0, 2.0], [2.0, 2.0, -1.0]], 9.0)]}
+    for k, lst in mats.items():
+        for mat, mu in lst:
+            for sub in (['L1Norm', k], ['LpNorm', k, 'inf'], ['IndicatorBox', k, -0.5, 1.25],
+                        ['Huber', k, 0.5], ['L2Norm', k], ['IndicatorSimplex', k, 2],
+                        ['trans', dvec(rng, fsize(zoo()[k]), -8, 8), ['L1Norm', k]]):
+                out.append(['comp', mat, mu, sub])
     for k in product_keys:
         n = fsize(zoo()[k])
         out += [['L1Norm', k], ['L2Norm', k], ['L2NormSquared', k],
@@ -593,7 +637,7 @@ FINITE_LEAVES = ('L1Norm', 'L2Norm', 'L2NormSquared', 'LpNorm', 'Huber', 'ZeroFu
 
 
 def leaf_of(spec):
-    while spec[0] in ('trans', 'rscale', 'lscale', 'ssum', 'quad', 'bregman', 'dconj'):
+    while spec[0] in ('trans', 'rscale', 'lscale', 'ssum', 'quad', 'bregman', 'dconj', 'comp'):
         spec = spec[-1]
     return spec
 
@@ -664,8 +708,16 @@ class Oracle(object):
             return float(d.inner(d)) / (2.0 * self.sigma)
         return 0.5 * float((d / self.sigma).inner(d))
 
+    error = None
+
     def obj(self, z):
-        fz = fnum(self.feval(z))
+        try:
+            fz = fnum(self.feval(z))
+        except Exception as e:  # noqa  evaluation of the real functional failed at a probe
+            if self.error is None:
+                self.error = 'f(z) raised {}: {} at z = {}'.format(
+                    type(e).__name__, str(e)[:200], [round(v, 6) for v in flat(z)[:8].tolist()])
+            return float('inf')
         if fz != fz:
             return float('inf')
         return fz + self.quad(z)
@@ -780,6 +832,7 @@ def check_case(case, sg, xlist, rng, deep=0):
         probs.append(('range', 'result is not an element of the space'))
         return probs, info
     pf = flat(p)
+    p_orig = p
     info['p'] = pf
     if not np.all(np.isfinite(pf)):
         probs.append(('finite', 'proximal point has non-finite entries {}'.format(pf[:6])))
@@ -829,6 +882,7 @@ def check_case(case, sg, xlist, rng, deep=0):
             probs.append(('finite', 'f(prox(x)) = {} is not finite'.format(fp)))
         else:
             orc = Oracle(feval, S, x, sg_q)
+            info['orc'], info['p_elem'] = orc, p
             pool = [(q, 'prox(y{})'.format(i)) for i, (_, q) in enumerate(qs)]
             try:
                 if math.isfinite(fnum(feval(x))):
@@ -842,6 +896,8 @@ def check_case(case, sg, xlist, rng, deep=0):
                                   deep >= 2 or rng.random() < 0.15, S, fin_every, deep=deep)
             if msg:
                 probs.append(('minimiser', msg))
+            if orc.error:
+                probs.append(('raises', orc.error))
     else:
         # default convex conjugate: not evaluable; Moreau: u = (x - q)/sigma must be the
         # proximal point of f with step 1/sigma at x/sigma  (sigma scalar here)
@@ -867,7 +923,10 @@ def check_case(case, sg, xlist, rng, deep=0):
                                   deep=deep)
             if msg:
                 probs.append(('minimiser', 'through the Moreau identity: ' + msg))
+            if orc.error:
+                probs.append(('raises', orc.error))
     # firm non-expansiveness:  <Px - Py, (x - y)/sigma> >= <Px - Py, (Px - Py)/sigma>
+    p = p_orig
     for (y, q) in qs:
         dp, dx = p - q, x - y
         if np.isscalar(sg_q):
@@ -949,6 +1008,25 @@ def sep_weights(case):
     return w
 
 
+def model_as_probe(ctx, rec, mp):
+    """A disagreement is not a violation by itself; but the model's answer is a good probe:
+    if it is feasible and has a smaller objective (evaluated by the real code) than the
+    implementation's proximal point, that IS an oracle failure with a concrete witness."""
+    case, sk, sg, xc, xlist, info, probs = rec
+    orc = info.get('orc')
+    if orc is None or probs:
+        return
+    try:
+        z = unflat(case.space, [float(v) for v in mp])
+        phi_z, phi_p = orc.obj(z), orc.obj(info['p_elem'])
+    except Exception:  # noqa
+        return
+    if phi_z < phi_p - TOL_REL * max(1.0, abs(phi_p)):
+        ctx.violation(vkey(case, sk, 'minimiser'),
+                      'objective at p = {!r} but {!r} at z = {} (the model\'s proximal point)'
+                      .format(phi_p, phi_z, [round(float(v), 6) for v in mp[:8]]), rec_desc(rec))
+
+
 def compare(ctx, rec, ans):
     case, sk, sg, xc, xlist, info, probs = rec
     desc = rec_desc(rec)
@@ -976,6 +1054,7 @@ def compare(ctx, rec, ans):
             bad = [i for i, (a, b) in enumerate(zip(mp, ip)) if a != b]
             ctx.disagree(desc, 'p[{}] = {}'.format(bad[0], ip[bad[0]]),
                          'p[{}] = {} (exact stream)'.format(bad[0], mp[bad[0]]))
+            model_as_probe(ctx, rec, mp)
         return
     ctx.hit('stream/tolerance')
     scale = max([1.0] + [abs(float(v)) for v in xlist] + [abs(float(v)) for v in mp])
@@ -983,6 +1062,7 @@ def compare(ctx, rec, ans):
         if abs(float(a) - float(b)) > 1e-9 * scale + 1e-12:
             ctx.disagree(desc, 'p[{}] = {!r}'.format(i, float(b)),
                          'p[{}] = {!r}'.format(i, float(a)))
+            model_as_probe(ctx, rec, mp)
             return
 
 
@@ -1020,6 +1100,7 @@ def introspect(ctx):
                'KullbackLeiblerConvexConj', 'KullbackLeiblerCrossEntropy',
                'KullbackLeiblerCrossEntropyConvexConj', 'L1Norm', 'L2Norm', 'L2NormSquared',
                'LpNorm', 'NuclearNorm', 'SeparableSum', 'ZeroFunctional'}
+    ctx.extra['factories_without_functional_binding_exercised'] = ['proximal_composition']
     ctx.extra['functional_classes_with_proximal'] = sorted(found)
     missing = sorted(found - covered)
     ctx.extra['classes_without_recipe'] = missing
@@ -1037,7 +1118,7 @@ def iterate_cases(ctx, specs, deep=False, per_spec_sigmas=None):
         except Exception as e:  # noqa  constructing the functional failed in the real code
             ctx.err('build:' + type(e).__name__)
             ctx.violation('prox construction {} space={}'.format(spec[0], spec[1] if
-                          isinstance(spec[1], str) else '-'),
+                          isinstance(spec[1], str) else leaf_of(spec)[1]),
                           'constructing the functional raised {}: {}'.format(
                               type(e).__name__, str(e)[:200]), {'spec': spec})
             continue
